@@ -323,7 +323,13 @@ func (h *dbHarness) verifyImage(img *simfs.Disk, c *crashCtx, what string) (*rec
 		db.Close()
 		return nil, fmt.Sprintf("%s: reading the recovered DB failed: %v", what, err)
 	}
-	m, desc := h.matchRecovered(c, pts, spans)
+	var m *recoverMatch
+	var desc string
+	if h.conc != nil {
+		m, desc = h.matchRecoveredConc(c.k, pts, spans)
+	} else {
+		m, desc = h.matchRecovered(c, pts, spans)
+	}
 	if cerr := db.Close(); cerr != nil && m != nil {
 		return nil, fmt.Sprintf("%s: Close of the recovered DB failed: %v", what, cerr)
 	}
@@ -579,6 +585,25 @@ func (h *dbHarness) pickForkIndices(n int, all bool) []int {
 			seen[k] = true
 		}
 	}
+	// The instant a durable acknowledgement was given is the most adversarial
+	// crash point for it: nothing later has had the chance to sync the data
+	// on its behalf.
+	nAck := 0
+	if h.conc != nil {
+		for _, g := range h.conc.groups {
+			if g.sync && g.ackIdx >= 0 && g.ackIdx <= total && nAck < 48 && !seen[g.ackIdx] {
+				seen[g.ackIdx] = true
+				nAck++
+			}
+		}
+	}
+	for _, gi := range h.groups {
+		if gi.sync && gi.ackIdx > 0 && gi.ackIdx <= total && nAck < 48 && !seen[gi.ackIdx] {
+			seen[gi.ackIdx] = true
+			nAck++
+		}
+	}
+	n += nAck
 	if h.plan.Profile == "manifest" {
 		// every mutation of MANIFEST / marker files and every directory
 		// operation (before and after it), up to a cap
